@@ -106,9 +106,10 @@ def _job(args):
     not; it is also the only way to get a hard time limit), then cvc5 on the same SMT-LIB text, then the z3 command
     line again with the full budget.  Queries over sequences skip the in-process attempt (soft timeouts can be ignored
     there)."""
-    name, text, cover, timeout_ms, use_cvc5, prefer = args
+    name, text, cover, timeout_ms, use_cvc5, prefer = args[:6]
+    no_api = len(args) > 6 and args[6]
     total = 0.0
-    seqq = "seq." in text
+    seqq = ("seq." in text) or no_api
     quick = min(timeout_ms, 4000)
     if prefer == "cvc5":
         r, info, dt = _run_cvc5(text, timeout_ms)
@@ -173,6 +174,59 @@ def _cache_put(key, val):
         pass
 
 
+def _run_pool(payload, jobs):
+    """Run the jobs in worker processes.  The in-process z3 API only has a soft timeout, which some queries ignore; a job
+    that does not come back within its whole budget plus a margin is abandoned: the workers are killed and the jobs that
+    were still open are run again with the command-line solvers only (hard time limits)."""
+    import concurrent.futures as cf
+    if not payload:
+        return []
+    if jobs == 1 or len(payload) <= 2:
+        # still in a worker process, so that a hang can be cut
+        jobs = 1 if jobs == 1 else len(payload)
+    results = {}
+    open_jobs = list(payload)
+    attempt = 0
+    while open_jobs:
+        attempt += 1
+        no_api = attempt > 1
+        batch = [tuple(p[:6]) + (no_api,) for p in open_jobs]
+        budget = max(p[3] for p in batch) / 1000.0
+        stall = 8 + 2 * budget + 60          # API + CLI quick, cvc5, CLI full, margin
+        ex = cf.ProcessPoolExecutor(max_workers=min(jobs, len(batch)))
+        futs = {ex.submit(_job, p): p for p in batch}
+        pending = set(futs)
+        hung = False
+        while pending:
+            done, pending = cf.wait(pending, timeout=stall, return_when=cf.FIRST_COMPLETED)
+            if not done:
+                hung = True
+                break
+            for f_ in done:
+                try:
+                    out = f_.result()
+                except Exception as e:        # a crashed worker: treated like a hang
+                    hung = True
+                    continue
+                results[out[0]] = out
+        if hung:
+            for proc in list(getattr(ex, "_processes", {}).values()):
+                try:
+                    proc.kill()
+                except Exception:
+                    pass
+            ex.shutdown(wait=False, cancel_futures=True)
+        else:
+            ex.shutdown(wait=True)
+        open_jobs = [p for p in open_jobs if p[0] not in results]
+        if open_jobs and attempt >= 2:
+            # even the command-line runs did not return: give up on these (verdict unknown)
+            for p in open_jobs:
+                results[p[0]] = (p[0], "unknown", "solver did not return within the hard limit", 0.0, "none")
+            open_jobs = []
+    return [results[p[0]] for p in payload]
+
+
 def discharge(obligations, timeout_ms=10000, jobs=None, use_cvc5=True, stats=None):
     """Verdicts for *byte-identical* SMT-LIB queries are reused from build/vccache (several properties share
     obligations; the queries themselves are regenerated from /repo's source on every run)."""
@@ -197,11 +251,7 @@ def discharge(obligations, timeout_ms=10000, jobs=None, use_cvc5=True, stats=Non
                         (ob.info or {}).get("prefer")))
     if stats is not None:
         stats["cache_hits"] = stats.get("cache_hits", 0) + hits
-    if jobs == 1 or len(payload) <= 2:
-        outs = map(_job, payload)
-    else:
-        ex = ProcessPoolExecutor(max_workers=jobs)
-        outs = ex.map(_job, payload, chunksize=1)
+    outs = _run_pool(payload, jobs)
     for (name, r, info, dt, backend) in outs:
         i = int(name)
         ob = obligations[i]
